@@ -118,7 +118,7 @@ def r_maps(ctx):
     dup = False
     for kind, p, ret in explore(ctx, fn, max_visits=2):
         if kind == 'RET' and 'WitnessReassigned' in err_variants(ret):
-            dup = any(is_call(w, 'contains_key') and l != '0' for w, l in p.conds)
+            dup = any((is_call(w, 'contains_key') and l != '0') or (is_call(w, 'entry') and l == 'Occupied') for w, l in p.conds)
     ctx.ob(rid, 'module:duplicate', dup, 'map.contains_key(name) ⇒ WitnessReassigned before insertion', fn.where())
     if ctx.tier == 'thorough':
         fs = ctx.facts('serde')
@@ -131,6 +131,10 @@ def r_maps(ctx):
                     if is_call(w, 'is_some') and calls_in(w, 'insert') and l != '0' and kind == 'RET' and ret_kind(ret) in ('err', 'other', 'residual'):
                         ok = True
                     if is_call(w, 'contains_key') and l != '0' and kind == 'RET':
+                        ok = True
+                # fixed-field objects ({"value": .., "type": ..}): a field seen before (`slot.is_some()`) ⇒ duplicate_field error
+                for e in event_calls(p, 'duplicate_field'):
+                    if any(is_call(w, 'is_some') and l != '0' for w, l in p.conds[:e[5]]):
                         ok = True
             ctx.ob(rid, 'json:duplicate:' + f.path, ok, 'JSON visitor rejects a name that is already in the map', f.where())
 
